@@ -280,7 +280,9 @@ fn token() -> impl Strategy<Value = Vec<u8>> {
     let words: Vec<&'static str> = vec![
         "IN", "CH", "in", "CLASS300", "A", "AAAA", "NS", "CNAME", "SOA", "MX", "TXT", "SRV", "WKS", "HINFO", "MINFO", "PTR", "NULL", "OPT", "TSIG", "TYPE99", "TYPE1", "TYPE41", "TYPE10", "\\#", "0", "1", "4", "16", "300", "3600",
         "4294967295", "4294967296", "0a000001", "00", "c0", "ff", "zz", "192.0.2.1", "256.1.1.1", "::1", "2001:db8::1", "example.", "www", "@", ".", "*", "a.b.c.", "ns1.example.", "$ORIGIN", "$TTL", "$INCLUDE", "$origin", "$BOGUS", "(", ")", ";", "; comment", "\"", "\"quoted string\"",
-        "\"unterminated", "\\", "\\000", "\\256", "\\25", "\\.", "TCP", "UDP", "25", "65535", "65536", "\n", "\r\n", "\n ", "\n\t", " ", "\t", "  ",
+        "\"unterminated", "\\", "\\000", "\\256", "\\25", "\\.", "TCP", "UDP", "25", "65535", "65536", "\n", "\r\n",
+        // valid UTF-8 that is not ASCII, with multi-octet characters at various octet offsets
+        "é", "ééé", "CLASé", "CLASSé", "TYPé", "TYPEé1", "abcd€", "ab😀", "in\u{0301}", "1é", "\\#é", "\n ", "\n\t", " ", "\t", "  ",
     ];
     prop_oneof![
         20 => (0..words.len()).prop_map(move |i| words[i].as_bytes().to_vec()),
